@@ -94,6 +94,48 @@ func c10GenMeta(r *Rng, name string) map[string]any {
 	return md
 }
 
+// c10AddCollections adds an array of objects and a map of objects (wildcard targets).
+func c10AddCollections(r *Rng, spec map[string]any) {
+	if r.Chance(1, 2) {
+		items := []any{}
+		for i, n := 0, r.Intn(4); i < n; i++ {
+			it := map[string]any{"name": Pick(r, c10Strings)}
+			if r.Chance(3, 4) {
+				it["v"] = c10GenScalar(r)
+			}
+			if r.Chance(1, 2) {
+				tags := []any{}
+				for j, k := 0, r.Intn(3); j < k; j++ {
+					tags = append(tags, Pick(r, c10Strings))
+				}
+				it["tags"] = tags
+			}
+			if r.Chance(1, 3) {
+				it["sub"] = c10GenObj(r, 1)
+			}
+			items = append(items, it)
+		}
+		if r.Chance(1, 10) {
+			items = append(items, Pick(r, []any{nil, "scalar", int64(3)}))
+		}
+		spec["items"] = items
+	}
+	if r.Chance(1, 3) {
+		by := map[string]any{}
+		for i, n := 0, r.Intn(3); i < n; i++ {
+			by[Pick(r, []string{"k1", "k2", "x.y", "k-1"})] = map[string]any{"v": c10GenScalar(r), "l": []any{int64(1), "x"}}
+		}
+		spec["byKey"] = by
+	}
+}
+
+var c10WildPaths = []string{
+	"spec.items[*].v", "spec.items[*].new", "spec.items[*].tags[*]", "spec.items[*].tags[0]", "spec.byKey[*].v",
+	"spec.nolist[*].x", "spec.items[*]", "metadata.labels[*]", "spec.items[*].name.x", "spec[*]", "spec.items[*].sub.a",
+	"spec.byKey[*].l[*]", "spec.items[1].tags[*]", "spec.items[*].zz.deep", "spec.byKey[*]", "[*]", "spec.items[*][*]",
+	"spec.items[*].sub[*]", "spec.byKey[*].l[5]",
+}
+
 func c10GenXRContent(r *Rng) map[string]any {
 	m := map[string]any{
 		"apiVersion": "example.org/v1",
@@ -101,6 +143,7 @@ func c10GenXRContent(r *Rng) map[string]any {
 		"metadata":   c10GenMeta(r, "xr"),
 		"spec":       c10GenObj(r, 3),
 	}
+	c10AddCollections(r, m["spec"].(map[string]any))
 	if r.Chance(2, 3) {
 		m["status"] = c10GenObj(r, 2)
 	}
@@ -119,6 +162,7 @@ func c10GenCDContent(r *Rng) map[string]any {
 	if r.Chance(1, 3) {
 		m["status"] = c10GenObj(r, 2)
 	}
+	c10AddCollections(r, m["spec"].(map[string]any))
 	return m
 }
 
@@ -294,7 +338,13 @@ func c10GenMatch(r *Rng, hint any) *c10Match {
 		p := c10Pattern{Type: Pick(r, []string{"literal", "literal", "regexp", "regexp", "", "bogus"}), Result: c10GenRaw(r)}
 		if p.Type == "literal" || r.Chance(1, 8) {
 			if !r.Chance(1, 10) {
-				if s, ok := hint.(string); ok && r.Chance(1, 3) {
+				if s, ok := hint.(string); ok && r.Chance(1, 2) {
+					switch r.Intn(4) {
+					case 0:
+						s = strings.ToUpper(s)
+					case 1:
+						s = strings.ToLower(s)
+					}
 					p.Literal = c10P(s)
 				} else {
 					p.Literal = c10P(Pick(r, c10Strings))
@@ -535,6 +585,10 @@ func c10GenSanePatch(r *Rng, xr, cd map[string]any) (*c10Patch, []string) {
 		c.Fmt = c10P(Pick(r, []string{"%s", "%s-%s", "%v-%v-%v", "%v/%v", "%d-%s", "x-%v"}))
 		p.Combine = c
 		p.To = &c10Path{Raw: fresh()}
+		if r.Chance(1, 6) {
+			// a combine patch does not expand wildcards: "[*]" is an ordinary field name there
+			p.To = &c10Path{Raw: Pick(r, c10WildPaths)}
+		}
 		hint = "abc"
 	} else {
 		if r.Chance(1, 8) {
@@ -545,10 +599,12 @@ func c10GenSanePatch(r *Rng, xr, cd map[string]any) (*c10Patch, []string) {
 		if v, ok := c10ValueAt(src, p.From.Raw); ok {
 			hint = v
 		}
-		switch r.Intn(4) {
+		switch r.Intn(6) {
 		case 0:
 		case 1:
 			p.To = &c10Path{Raw: existing(dst, true)}
+		case 2, 3:
+			p.To = &c10Path{Raw: Pick(r, c10WildPaths)}
 		default:
 			p.To = &c10Path{Raw: fresh()}
 		}
@@ -617,7 +673,7 @@ func c10GenSaneChain(r *Rng, input any) []c10Xf {
 					m.FallbackValue = c10Raw{K: "val", Src: `"fallback"`}
 				}
 				m.Patterns = []c10Pattern{
-					{Type: "literal", Literal: c10P(Pick(r, []string{v, "zzz"})), Result: c10Raw{K: "val", Src: Pick(r, c10RawSrcs[:12])}},
+					{Type: "literal", Literal: c10P(Pick(r, []string{v, v, "zzz", strings.ToUpper(v), strings.ToLower(v), v + " "})), Result: c10Raw{K: "val", Src: Pick(r, c10RawSrcs[:12])}},
 					{Type: "regexp", Regexp: c10P(Pick(r, []string{"^a.*", "[0-9]+", ".*", "^$"})), Result: c10Raw{K: "val", Src: `"re"`}},
 				}
 				t = c10Xf{Type: "match", Match: m}
